@@ -152,8 +152,11 @@ def run(ctx):
         ctx.ob("V3", EV, "EventManager", "clear[i] = pending.re & pending.r[i]", ok,
                "" if ok else f"{a.t} <= {a.v} under {B.show(G)}: clearing one event can clear another / never clears", a.line)
     # what `pending.re & pending.r[i]` means is decided in CSRStatus: r latched under the write strobe, re = that strobe delayed
-    from .c12 import status_write_latch
+    from .c12 import status_write_latch, storage_word_slices
     status_write_latch(ctx, "V3")
+    # ... and `enable.storage[i]` is the bit software wrote for source i only if bus word w of the enable register is bits
+    # [w*busword : ...] of its storage (more sources than the CSR bus is wide)
+    storage_word_slices(ctx, "V3")
     names = {}
     for reg, attr in (("status", "status"), ("pending", "pending")):
         ds = [a for a in fx.find(domain="comb") if a.t.startswith(f"getattr(self.{reg}.fields,")]
